@@ -438,7 +438,8 @@ pub fn parse_expr(
             let data_type: DataType = cast.arrow_type.as_ref().required("arrow_type")?;
             let field = data_type
                 .into_nullable_field()
-                .with_nullable(cast.nullable.unwrap_or(true));
+                .with_nullable(cast.nullable.unwrap_or(true))
+                .with_metadata(cast.metadata.clone());
             Ok(Expr::Cast(Cast::new_from_field(expr, Arc::new(field))))
         }
         ExprType::TryCast(cast) => {
@@ -451,7 +452,8 @@ pub fn parse_expr(
             let data_type: DataType = cast.arrow_type.as_ref().required("arrow_type")?;
             let field = data_type
                 .into_nullable_field()
-                .with_nullable(cast.nullable.unwrap_or(true));
+                .with_nullable(cast.nullable.unwrap_or(true))
+                .with_metadata(cast.metadata.clone());
             Ok(Expr::TryCast(TryCast::new_from_field(
                 expr,
                 Arc::new(field),
